@@ -42,7 +42,7 @@ PROPS = {
     "C09": dict(pkg="c09", shards=(4, 16)), "C10": dict(pkg="c10"),
     "C11": dict(pkg="c11", race=True, as_gib=0, shards=(4, 8)),
     "C12": dict(pkg="c12"), "C13": dict(pkg="c13"), "C14": dict(pkg="c14"), "C15": dict(pkg="c15"),
-    "C16": dict(pkg="c16"), "C17": dict(pkg="c17"), "C18": dict(pkg="c18", shards=(2, 8)),
+    "C16": dict(pkg="c16"), "C17": dict(pkg="c17"), "C18": dict(pkg="c18", shards=(8, 16)),
 }
 
 
